@@ -13,11 +13,11 @@ def pegActs : Array Act := DS.Gen.Actions.acts
 
 def opNum (n : String) : Nat := ((DS.Gen.Opcodes.opcodes.find? (·.1 == n)).map (·.2)).getD 9999
 
-def pegEnv (input : Array Nat) (maxCnt : Nat) : Env :=
+def pegEnv (input : Array Nat) (maxCnt : Nat) (custom : Nat → Nat := fun _ => 0) : Env :=
   { input := input, rules := DS.Gen.Grammar.rules, acts := pegActs, nodeCount := DS.Gen.Grammar.nodeCount,
     tables := DS.Gen.Unicode.tables,
     bpush := opNum "typeBlockPush", bpop := opNum "typeBlockPop", jmp := opNum "typeJmp",
-    maxCnt := maxCnt }
+    maxCnt := maxCnt, custom := custom, customOp := opNum "typeCustomDice" }
 
 def pegFlags (tok : String) : Flags × Nat :=
   (tok.splitOn ",").foldl (fun (acc : Flags × Nat) p =>
@@ -39,6 +39,24 @@ def pegLine (toks : List String) : String :=
      | some bs =>
        let (flags, maxCnt) := pegFlags cfg
        let env := pegEnv bs.toArray maxCnt
+       let (s, ok) := parseTop env flags 1000000
+       match s.broken with
+       | some w => "broken " ++ w
+       | none =>
+         if s.fuelOut then "diverge"
+         else if ok then s!"ok {s.pos} {traceStr s.trace}" else s!"err {traceStr s.trace}"
+     | none => "bad-op")
+  | ["pegtracec", cfg, tbl, src] =>
+    -- with registered custom dice parsers: tbl = "off:len,off:len,…" (match length at each offset where one matches) or "-"
+    (match bytesOf src with
+     | some bs =>
+       let (flags, maxCnt) := pegFlags cfg
+       let pairs : List (Nat × Nat) := if tbl == "-" then [] else (tbl.splitOn ",").filterMap (fun p =>
+         match p.splitOn ":" with
+         | [a, b] => (match a.toNat?, b.toNat? with | some x, some y => some (x, y) | _, _ => none)
+         | _ => none)
+       let custom (off : Nat) : Nat := ((pairs.find? (·.1 == off)).map (·.2)).getD 0
+       let env := pegEnv bs.toArray maxCnt custom
        let (s, ok) := parseTop env flags 1000000
        match s.broken with
        | some w => "broken " ++ w
